@@ -218,8 +218,9 @@ class EmitterInterp(object):
         require(got == exp, 'emit called the wrong callbacks / wrong order', key='emit-order',
                 observed=got, expected=exp)
         for c in self.calls:
-            require((c[1] is sender or (sender is not None and c[1] == sender)) and
-                    c[2] == args and c[3] == kwargs,
+            # 'unchanged' is identity: the callback gets the very object that was emitted (not an
+            # equal one, such as the filter it was registered with)
+            require(c[1] is sender and c[2] == args and c[3] == kwargs,
                     'sender/arguments not passed through unchanged', key='emit-args',
                     observed=c[1:4], expected=(sender, args, kwargs))
         results = [c[4] for c in self.calls]
